@@ -353,12 +353,13 @@ Definition parse_archs_skel (n : nat) : res unit :=
   do _ <- (if (n =? 1)%nat then vidx n 0 else Ok tt);
   if (n =? 1)%nat then do _ <- vidx n 0; vidx n 0 else Ok tt.
 
-(* ---- the repair of finding C15-F4 (fixes/C15-F4.patch, not applied): sortTarHeaders skips
-   an entry whose cleaned name is "." ------------------------------------------------------------ *)
-Definition not_dot (h : hdr) : bool := negb (clean (h_name h) =? ".").
-Definition sort_headers_fixed (hs : list hdr) : res (list hdr) := sort_headers (filter not_dot hs).
+(* ---- finding C15-F4 is repaired in /repo (fix f716198): sortTarHeaders skips an entry whose cleaned name
+   is "."; Model/Formats.v [sort_headers] / [sort_headers_ord] are that function, [sort_headers_raw] /
+   [sort_headers_ord_raw] what it was before (hypothetical). [not_dot] lives in Model/Formats.v. ---------- *)
 
-(* ---- build/types ImageConfiguration.Load / parse: the include chain (finding C15-F6) -------
+(* ---- build/types ImageConfiguration.Load / parse: the include chain, abstract form of session 3
+   (finding C15-F6, repaired in /repo by fix 43ae291: [load_chain_fixed] is the code, [load_chain] what it
+   was before — hypothetical; the model compared with the implementation is Model/Parsers2.v load_config) -------
    Load reads the file at [path], decodes it and, when its `include:` field is set, first
    loads that path into a fresh configuration (the same way) and merges it. As far as
    termination goes a file is the value of its include field ("" = none); a path without a
